@@ -208,6 +208,8 @@ type syWorld struct {
 	cached  *apps.StatefulSet
 	cpods   []*v1.Pod
 	gone    bool // the set no longer exists in the API: a status write answers NotFound
+	// graceful: a pod delete only stamps a deletion timestamp (the world engine removes the pod at its next settle)
+	graceful bool
 }
 
 func shortRes(r string) string {
@@ -288,6 +290,23 @@ func (w *syWorld) react(a k8stesting.Action) (bool, runtime.Object, error) {
 	w.mu.Unlock()
 	if bad {
 		return true, nil, errOfKind(kind, a, key)
+	}
+	if w.graceful && a.GetVerb() == "delete" && a.GetResource().Resource == "pods" {
+		name := a.(k8stesting.DeleteAction).GetName()
+		obj, err := w.kube.Tracker().Get(podsGVR, rcNS, name)
+		if err != nil {
+			return true, nil, err
+		}
+		pod := obj.(*v1.Pod).DeepCopy()
+		if pod.Status.Phase == v1.PodFailed || pod.Status.Phase == v1.PodSucceeded {
+			return false, nil, nil // the API server deletes a terminated pod immediately (grace period 0)
+		}
+		if pod.DeletionTimestamp == nil {
+			t := metav1.NewTime(syTime0)
+			pod.DeletionTimestamp = &t
+			_ = w.kube.Tracker().Update(podsGVR, pod, rcNS)
+		}
+		return true, nil, nil
 	}
 	if key == "updatestatus" && !w.gone {
 		if s, ok := a.(k8stesting.UpdateAction).GetObject().(*apps.StatefulSet); ok {
